@@ -490,3 +490,87 @@ BASE_TRUST = [
     "compat shims that make the anchored packages build offline (DESIGN.md Appendix A) and the injected //go:build verif accessors",
     "the Go runtime, reflect/unsafe, encoding/gob, container/heap, sort.Sort, the local file system (modelled by contract, not verified)",
 ]
+
+
+# --------------------------------------------------------------------------
+# tie T2: facts regenerated from the work copy, re-checked by Lean
+
+
+def build_gofacts(wc):
+    out = os.path.join(wc.root, "gofacts")
+    if os.path.exists(out):
+        return out
+    p = subprocess.run(
+        ["go", "build", "-o", out, "."],
+        cwd=os.path.join(VERIF, "harness", "gofacts"),
+        env=wc.env,
+        capture_output=True,
+        text=True,
+    )
+    if p.returncode != 0:
+        raise BuildError("gofacts: " + p.stdout + p.stderr)
+    return out
+
+
+def gofacts(wc, *args):
+    exe = build_gofacts(wc)
+    a = list(args)
+    # file arguments are relative to the work copy of /repo
+    a[1] = os.path.join(wc.repo, a[1])
+    p = subprocess.run([exe] + a, capture_output=True, text=True)
+    return p.returncode, p.stdout, p.stderr
+
+
+def t2_check(chk, wc, name, imports, generated, ties):
+    """generated: Lean text produced from the Go source on this run.
+    ties: list of (theorem name, Lean text of the theorem incl. proof, go_ref).
+    Each tie is one obligation; a failing one is a `tie-T2-broken` violation."""
+    header = "".join("import %s\n" % i for i in imports)
+    ns = "namespace BS.Generated.%s\n" % name
+    chk.cov.setdefault("t2_ties", [])
+    chk.cov.setdefault("t2_generated", {})
+    chk.cov["t2_generated"][name] = generated[:1500]
+
+    def run(text, tag):
+        path = os.path.join(wc.root, "T2_%s_%s.lean" % (name, tag))
+        open(path, "w").write(text)
+        ok, out, err = lean_run_file(path)
+        return ok, (out + err)
+
+    full = header + ns + generated + "\n" + "\n".join(t[1] for t in ties) + "\nend BS.Generated.%s\n" % name
+    bad_tokens = grep_forbidden_text(full)
+    ok, out = run(full, "all")
+    if ok and not bad_tokens:
+        for t in ties:
+            chk.cov["obligations"] += 1
+            chk.cov["discharged"] += 1
+            chk.cov["t2_ties"].append(t[0])
+        return True
+    allok = True
+    for i, t in enumerate(ties):
+        chk.cov["obligations"] += 1
+        ok1, out1 = run(header + ns + generated + "\n" + t[1] + "\nend BS.Generated.%s\n" % name, str(i))
+        if ok1 and not grep_forbidden_text(t[1]):
+            chk.cov["discharged"] += 1
+            chk.cov["t2_ties"].append(t[0])
+            continue
+        allok = False
+        chk.violation(
+            "tie-T2-broken",
+            {
+                "theorem": "BS.Generated.%s.%s" % (name, t[0]),
+                "go_source": t[2],
+                "generated_lean": generated,
+                "tie_theorem": t[1],
+                "lean_output": out1[-2500:],
+                "note": "the Lean fact regenerated from /repo's source no longer matches the model/theorem",
+            },
+            found_input=False,
+        )
+    return allok
+
+
+def grep_forbidden_text(text):
+    t = strip_lean_comments(text)
+    t = re.sub(r'"(\\.|[^"\\])*"', '""', t)
+    return [l for l in t.split("\n") if FORBIDDEN.search(l)]
